@@ -625,6 +625,17 @@ impl H {
             let reads = reads.clone();
             let gc_results = gc_results.clone();
             let initial = initial.clone();
+            // (key, value) of every put / multipart the race performs
+            let src_alternatives: Vec<(u8, Bytes)> = case
+                .tasks
+                .iter()
+                .flatten()
+                .filter_map(|o| match o {
+                    WOp::Put { key, val, .. } => Some((*key, val.bytes())),
+                    WOp::Multi { key, parts, abort: false } => Some((*key, multi_bytes(parts))),
+                    _ => None,
+                })
+                .collect();
             tasks.push(Box::pin(async move {
                 for op in ops {
                     match op {
@@ -654,6 +665,16 @@ impl H {
                                 let mut wv = writes.lock().unwrap();
                                 wv.push(WriteRec { key: k, invoke: inv, ret: None, val, ok: None });
                                 idxs.push(wv.len() - 1);
+                                // a copy whose source is itself being overwritten by the race
+                                // may carry any of the source's values (one record per alternative)
+                                if let WOp::Copy { from, .. } = op {
+                                    for alt in &src_alternatives {
+                                        if alt.0 == *from {
+                                            wv.push(WriteRec { key: k, invoke: inv, ret: None, val: Some(alt.1.clone()), ok: None });
+                                            idxs.push(wv.len() - 1);
+                                        }
+                                    }
+                                }
                             }
                             let r = real_apply(&w, s.as_ref(), op).await;
                             let ret = sim2.tick();
@@ -683,6 +704,18 @@ impl H {
             }
         }
         let writes = writes.lock().unwrap().clone();
+        if case.tasks.iter().flatten().any(|o| matches!(o, WOp::Copy { from, .. } if case.tasks.iter().flatten().any(|p| matches!(p, WOp::Put { key, .. } if key == from)))) {
+            rep.probe("copy_raced_overwrites_of_its_source", 1);
+        }
+        {
+            let mut per_key: BTreeMap<u8, u32> = BTreeMap::new();
+            for (k, _, _) in &case.orphans {
+                *per_key.entry(*k).or_default() += 1;
+            }
+            if per_key.values().any(|n| *n >= 2) {
+                rep.probe("several_orphans_on_one_raced_key", 1);
+            }
+        }
         let reads = reads.lock().unwrap().clone();
         // readers: a key that existed initially and that no writer deletes or
         // renames away must always read a written value
@@ -960,15 +993,47 @@ impl Harness for H {
                     }
                     tasks.push(t);
                 }
+                let template = rng.below(4);
+                if template == 0 {
+                    // a copy racing overwrites of its own source (the source is only
+                    // ever put by the race, never deleted or copied into)
+                    let hs = rng.below(nkeys as u64) as u8;
+                    let d = (hs + 1 + rng.below(nkeys as u64 - 1) as u8) % nkeys;
+                    tasks.truncate(1);
+                    tasks.push((0..rng.range(1, 2)).map(|_| WOp::Put { key: hs, val: gen_val(&mut rng, &mut tag, chunk), create: false }).collect());
+                    tasks.push(vec![WOp::Copy { from: hs, to: d, create: false }]);
+                    if !ops.iter().any(|o| matches!(o, WOp::Put { key, .. } if *key == hs)) {
+                        ops.push(WOp::Put { key: hs, val: gen_val(&mut rng, &mut tag, chunk), create: false });
+                    }
+                }
                 // stable source key for copies, never written by the race
                 ops.push(WOp::Put { key: nkeys, val: gen_val(&mut rng, &mut tag, chunk), create: false });
                 // reader
                 let nr = rng.range(2, 5);
                 tasks.push((0..nr).map(|_| WOp::Get { key: rng.below(nkeys as u64 + 1) as u8 }).collect());
-                let orphans = (0..rng.below(3))
+                // half of the time the orphans pile up on one key that the race also
+                // writes: several sweep candidates of one key, visited one after another
+                let pile: Option<u8> = if template == 1 || rng.chance(1, 3) {
+                    tasks.iter().skip(1).flatten().find_map(|o| match o {
+                        WOp::Put { key, .. } => Some(*key),
+                        _ => None,
+                    })
+                } else {
+                    None
+                };
+                if let Some(k) = pile {
+                    // ...and the writers queue up on that key: each commit turns the
+                    // previous generation into one more candidate of the same key
+                    for t in tasks.iter_mut().skip(1).take(nw as usize) {
+                        if t.iter().all(|o| !matches!(o, WOp::Copy { from, .. } if *from == k)) && rng.bool() {
+                            t.push(WOp::Put { key: k, val: gen_val(&mut rng, &mut tag, chunk), create: false });
+                        }
+                    }
+                }
+                let orphans = (0..if pile.is_some() { rng.range(2, 3) } else { rng.below(3) })
                     .map(|_| {
                         (
-                            rng.below(nkeys as u64) as u8,
+                            pile.unwrap_or(rng.below(nkeys as u64) as u8),
                             gen_val(&mut rng, &mut tag, chunk),
                             *rng.pick(&[0u32, 1, 50, 10_000]),
                         )
@@ -990,10 +1055,12 @@ impl Harness for H {
                     tasks,
                     orphans,
                     fault: None,
-                    clock: match rng.below(3) {
-                        0 => ClockMode::Frozen,
-                        1 => ClockMode::Tick(3),
-                        _ => ClockMode::Jumpy(3000),
+                    // (a frozen clock keeps every generation at the collector's floor:
+                    // nothing the race writes is ever a candidate)
+                    clock: match rng.below(if pile.is_some() { 2 } else { 3 }) {
+                        0 => ClockMode::Tick(3),
+                        1 => ClockMode::Jumpy(3000),
+                        _ => ClockMode::Frozen,
                     },
                     list_page: *rng.pick(&[0u32, 1, 2, 3]),
                     schedule: Schedule::Seeded { seed: rng.next_u64(), policy },
